@@ -116,7 +116,7 @@ Definition step_model_ok (p : opair) (o : ostep) : bool * opair :=
   let live := match o_status o with Diverge => false | Panic => false | _ => true end in
   (status_eqb (s_status s) (o_status o) &&
    (negb live ||
-    (list_eqb wframe_eqb (s_toC s) (o_toC o) && list_eqb wframe_eqb (s_toS s) (o_toS o) &&
+    (list_eqb wframe_eqb (wire (s_toC s)) (o_toC o) && list_eqb wframe_eqb (wire (s_toS s)) (o_toS o) &&
      snap_eqb (snap_of (r_flow (toC (s_pair s)))) (o_snapC o) &&
      snap_eqb (snap_of (r_flow (toS (s_pair s)))) (o_snapS o))),
    s_pair s).
@@ -131,7 +131,7 @@ Definition case_model_ok (c : hcase) : bool := steps_model_ok (pair0 c) (h_steps
 
 (* ---- the implementation's own trace *)
 Definition trace_of (c : hcase) : list tstep :=
-  map (fun o => mkT (o_ev o) (o_toC o) (o_toS o) (o_status o)) (h_steps c).
+  map (fun o => mkT (o_ev o) (ow (o_toC o)) (ow (o_toS o)) (o_status o) []) (h_steps c).
 
 (* C09 *)
 Definition c09_windows (c : hcase) : bool :=
